@@ -6,9 +6,60 @@ source directory, hands control to the scheduler and blocks on the thread's own 
 Schedules are enumerated depth-first with iterative PREEMPTION BOUNDING: replay a prefix of
 choices (out-of-range choice = hard error), then prefer the running thread; a switch away
 from a still-enabled thread costs one preemption."""
-import sys, threading
+import sys, threading, dis, types, builtins
 
 from . import target as T
+
+# ---------------------------------------------------------------------------
+# atomic-block reduction: frames that cannot write heap state and read no mutable module-level object carry no
+# scheduling points (they commute with every step of every other thread, so preempting inside them adds no behaviour)
+
+_WRITE_OPS = {"STORE_ATTR", "STORE_SUBSCR", "STORE_GLOBAL", "DELETE_ATTR", "DELETE_SUBSCR", "DELETE_GLOBAL", "STORE_DEREF", "LOAD_DEREF",
+              "LOAD_CLOSURE", "STORE_SLICE", "IMPORT_NAME", "LOAD_CLASSDEREF", "MAKE_CELL"}
+_MUT_NAMES = {"append", "extend", "insert", "pop", "remove", "clear", "update", "setdefault", "add", "discard", "popitem", "sort", "reverse",
+              "__setitem__", "__setattr__", "__delitem__", "__delattr__", "__dict__", "setattr", "delattr", "appendleft", "popleft", "put", "get",
+              "acquire", "release", "cache_clear", "send", "throw", "globals", "vars", "exec", "eval"}
+_IMMUT = (int, float, complex, bytes, str, bool, type(None), types.FunctionType, types.BuiltinFunctionType, type, types.ModuleType, frozenset,
+          range, types.MethodDescriptorType, types.WrapperDescriptorType)
+_atomic_cache = {}
+
+
+def _immutable(v, depth=0):
+    if isinstance(v, tuple):
+        return depth < 4 and all(_immutable(x, depth + 1) for x in v)
+    return isinstance(v, _IMMUT)
+
+
+def atomic_frame(frame):
+    """True if this frame's code (by static inspection of its bytecode and of the module globals it names) can neither write
+    heap state nor read a mutable module-level object"""
+    code = frame.f_code
+    key = (code, id(frame.f_globals))
+    r = _atomic_cache.get(key)
+    if r is None:
+        r = _atomic_code(code, frame.f_globals)
+        _atomic_cache[key] = r
+    return r
+
+
+def _atomic_code(code, globs):
+    if code.co_flags & 0x2A0 or code.co_freevars or code.co_cellvars:      # generator / coroutine / async generator, closures
+        return False
+    for ins in dis.get_instructions(code):
+        if ins.opname in _WRITE_OPS:
+            return False
+        if ins.opname in ("LOAD_ATTR", "LOAD_METHOD") and ins.argval in _MUT_NAMES:
+            return False
+        if ins.opname in ("LOAD_GLOBAL", "LOAD_NAME"):
+            n = ins.argval
+            if n in _MUT_NAMES:
+                return False
+            if n in globs:
+                if not _immutable(globs[n]):
+                    return False
+            elif not hasattr(builtins, n):
+                return False
+    return True
 
 
 class Divergence(Exception):
@@ -16,8 +67,9 @@ class Divergence(Exception):
 
 
 class Run:
-    def __init__(self, bodies, prefix, libdir, opcodes=False):
+    def __init__(self, bodies, prefix, libdir, opcodes=False, reduce=False):
         self.opcodes = opcodes
+        self.reduce = reduce
         self.n = len(bodies)
         self.bodies = bodies
         self.prefix = list(prefix)
@@ -42,6 +94,8 @@ class Run:
 
         def glob(frame, event, arg):
             if frame.f_code.co_filename.startswith(libdir):
+                if self.reduce and atomic_frame(frame):
+                    return None
                 if self.opcodes:
                     frame.f_trace_opcodes = True
                     frame.f_trace_lines = False
@@ -145,13 +199,13 @@ def alternatives(run, start, bound):
     return out
 
 
-def explore(make_bodies, bound, libdir, on_result, prefix=(), stop=None, opcodes=False):
+def explore(make_bodies, bound, libdir, on_result, prefix=(), stop=None, opcodes=False, reduce=False):
     """all schedules below `prefix` with at most `bound` preemptions; on_result(results, run) per execution"""
     stack = [list(prefix)]
     n = 0
     while stack:
         p = stack.pop()
-        r = Run(make_bodies(), p, libdir, opcodes)
+        r = Run(make_bodies(), p, libdir, opcodes, reduce)
         res = r.run()
         n += 1
         on_result(res, r)
